@@ -198,7 +198,7 @@ func (r *Report) Finish() int {
 			}
 		}
 	}
-	if r.Bounded != nil && r.Bounded.Failed > 0 {
+	if r.Bounded != nil || r.Extra["violations"] != nil {
 		// bounded violations are appended by the bounded engine through Extra["violations"]
 		if vs, ok := r.Extra["violations"].([]string); ok {
 			for _, v := range vs {
